@@ -47,6 +47,7 @@ ObsInit(c, M, K) ==
     cm      |-> [m \in M |-> NoMsg],        \* what the caller holds, per returned calls
     pend    |-> [m \in M |-> NoCall],       \* call entered, not yet returned
     crashed |-> {},
+    yield   |-> {},                         \* callers parked by the harness at a yield point
     viol    |-> {} ]
 
 V(o, c, name) == IF c THEN o ELSE [o EXCEPT !.viol = @ \cup {name}]
@@ -112,7 +113,11 @@ ObsRet(o, m, res) ==
 \* nosem: set of <<scope, key>> whose limiter has no semaphore at all.
 Use(use, s, k) == IF k \in DOMAIN use[s] THEN use[s][k] ELSE 0
 
-PendTake(o) == {m \in DOMAIN o.pend : o.pend[m].op \in {"TakeMsg", "TakeDest"}}
+\* A caller the harness itself holds at a yield point (see harness/limitscheck:
+\* installYield) is not "blocked": it is left out of BlockedWithFreePermits.
+ObsYield(o, m)  == [o EXCEPT !.yield = @ \cup {m}]
+ObsResume(o, m) == [o EXCEPT !.yield = @ \ {m}]
+PendTake(o) == {m \in DOMAIN o.pend : o.pend[m].op \in {"TakeMsg", "TakeDest"}} \ o.yield
 \* callers inside TakeMsg may already hold `all`, and `ip` under their key
 Slack(o, s, k) ==
   Cardinality({m \in DOMAIN o.pend : o.pend[m].op = "TakeMsg" /\
